@@ -23,16 +23,23 @@ for e, fns, uw in [("table", ["InitFields"], 70), ("DecodeFixed", ["DecodeFixed"
                    ("DecodeBit", ["DecodeBit", "EvalFExpression"], 8), ("DecodeF", ["DecodeF", "EvalFExpression"], 8), ("DecodeJump", ["DecodeJump"], 8)]:
     GROUPS.append(G("pic16_" + e, HP, "h_" + e, enforce=[], link=["bpemu.c"], stubs=["stubs/gerr.c"], unwind=uw, timeout=600, dfcc=False, drop_unused=True,
                     object_bits=12, defs=["-DSTRINGSIZE=64"], functions=fns))
+H85 = "harness/C14/h_code85.c"
+for e, fns, uw in [("table_8080", ["InitFields"], 170), ("table_8085", ["InitFields"], 170), ("table_8085U", ["InitFields"], 170), ("DecodeFixed", ["DecodeFixed"], 10), ("DecodeOp16", ["DecodeOp16"], 10), ("DecodeOp8", ["DecodeOp8"], 10), ("DecodeALU", ["DecodeALU", "DecodeReg8"], 12),
+                   ("DecodeMOV", ["DecodeMOV", "DecodeReg8"], 12), ("DecodeMVI", ["DecodeMVI", "DecodeReg8"], 12), ("DecodeLXI", ["DecodeLXI", "DecodeReg16"], 12),
+                   ("DecodeLDAX_STAX", ["DecodeLDAX_STAX", "DecodeReg16"], 12), ("DecodePUSH_POP", ["DecodePUSH_POP", "DecodeReg16"], 12), ("DecodeINR_DCR", ["DecodeINR_DCR", "DecodeReg8"], 12),
+                   ("DecodeINX_DCX_DAD", ["DecodeINX_DCX", "DecodeDAD", "DecodeReg16"], 12), ("DecodeRST", ["DecodeRST"], 10)]:
+    GROUPS.append(G("i8080_" + e, H85, "h_" + (e if not e.startswith("table") else "table"), enforce=[], link=["bpemu.c"], stubs=["stubs/gerr.c"], unwind=uw, timeout=600, dfcc=False, drop_unused=True,
+                    object_bits=12, defs=["-DSTRINGSIZE=64"] + (["-DVERIF_CPULVL=%d" % ["table_8080", "table_8085", "table_8085U"].index(e)] if e.startswith("table") else []), functions=fns, bounded=None if e in ("table_8080", "table_8085", "table_8085U", "DecodeFixed", "DecodeOp16", "DecodeOp8", "DecodeRST") else "operand texts of at most 3 characters (register names are at most 3 long)"))
 TRUSTED_BASE = ["formula parser replaced by an oracle returning an arbitrary integer and flags (goto-instrument --replace-calls)",
                 "code4004 harness: formula evaluator = oracle constrained by its contract (OK => value within the requested integer type; that contract is the obligation rng_EvalStrInt_range), register-alias lookup = oracle, instruction hash table = logging stub",
                 "the reference 4004/4040 opcode table in harness/C14/h_code4004.c was written from the Intel MCS-4 / MCS-40 documentation, the PIC16C8x table in h_code16c8x.c from the Microchip data sheet"]
 ASSUMPTIONS = ["each code generator passes the integer type of its field to EvalStrIntExpression (checked for the 4004 handlers only)"]
-NOT_COVERED = ["every instruction handler of code65.c, code85.c, codez80.c, codemsp.c, codeavr.c (opcode/operand encodings) -- five of the seven ISAs named in the property", "PIC16C8x: TRIS, BANKSEL, ZERO, DATA/RES, SFR pseudo instructions",
+NOT_COVERED = ["every instruction handler of code65.c, codez80.c, codemsp.c, codeavr.c (opcode/operand encodings) -- four of the seven ISAs named in the property", "8080/8085: the Z80-syntax handlers of code85.c (LD, EX, ADD/ADC/SUB, JP, CALL, RET, IN/OUT ...), the shared mnemonics ADD/ADC/SUB/RLC/IN/OUT/CALL/RET/JP/CP in Intel syntax, DSUB/LHLX/SHLX, PORT", "PIC16C8x: TRIS, BANKSEL, ZERO, DATA/RES, SFR pseudo instructions",
                "4004: DATA/DS pseudo instructions, register symbols defined with REG"]
 EXPLANATION = ("Decided: (1) the shared half of the property for every target: an operand value outside the range of the integer type its field is evaluated with is rejected with an "
                "error (never silently truncated), a fitting value is passed on unchanged, the type table holds the documented ranges; (2) for the Intel 4004/4040 the whole code "
                "generator: the instruction table against an independent opcode table, and every operand form (register and register-pair syntax, 4-bit and 8-bit immediates, 12-bit "
-               "jump targets, page rule of ISZ/JCN) against the manufacturer's encoding. (3) for the PIC16C8x the instruction table against an independent table of the 14-bit opcodes and DecodeFixed/Lit/Ari/Bit/F/Jump (destination bit, 7-bit file address within the bank, 3-bit bit number, 8-bit literal, 11-bit target with the PCLATH page bits set first when the target lies in another 2K page, targets outside the program memory rejected). The other five instruction sets named in the property are not under contract.")
+               "jump targets, page rule of ISZ/JCN) against the manufacturer's encoding. (3) for the PIC16C8x the instruction table against an independent table of the 14-bit opcodes and DecodeFixed/Lit/Ari/Bit/F/Jump (destination bit, 7-bit file address within the bank, 3-bit bit number, 8-bit literal, 11-bit target with the PCLATH page bits set first when the target lies in another 2K page, targets outside the program memory rejected). (4) for the 8080/8085 in Intel syntax: the instruction table (per CPU level) against an independent opcode table for the no-operand, 16-bit-address, 8-bit-immediate and accumulator-group instructions, and the handlers DecodeFixed/Op16/Op8/ALU/MOV/MVI/LXI/LDAX_STAX/PUSH_POP/INR_DCR/INX_DCX/DAD/RST. The other four instruction sets named in the property are not under contract.")
 MANIFEST = dict(
     category="other",
     text="(1) Shared range-rejection path for all targets: integer type table built by asmpars_init and the tail of EvalStrIntExpressionWithResult (fits => unchanged, outside => "
@@ -40,7 +47,7 @@ MANIFEST = dict(
          "documented mnemonic is in the instruction table with its documented opcode, operand form and minimum CPU (independent reference table); DecodeFixed/OneReg/OneRReg/AccReg "
          "path/Imm4/FullJmp/ISZ/JCN/FIM produce exactly the manufacturer's bytes for every operand (register names R0..RF/R00..R15, pairs RnP and R<2n>R<2n+1>, immediates through "
          "the 4-/8-/12-bit types), reject everything else with an error and no code, and apply the next-instruction page rule to ISZ and JCN. The other six ISAs named in the property "
-         "are NOT covered. (3) PIC16C8x (code16c8x.c): instruction table against an independent reference, and every machine-instruction handler (fixed, literal, byte-oriented with destination, bit-oriented, CLRF/MOVWF, CALL/GOTO with page handling) for every operand value.",
+         "are NOT covered. (3) PIC16C8x (code16c8x.c): instruction table against an independent reference, and every machine-instruction handler (fixed, literal, byte-oriented with destination, bit-oriented, CLRF/MOVWF, CALL/GOTO with page handling) for every operand value. (4) 8080/8085, Intel syntax (code85.c): table per CPU level against an independent reference and the Intel-syntax handlers (register names B C D E H L M A / B D H SP PSW, 8-bit and 16-bit operands low byte first, RST vector).",
     note="Operand texts are bounded to 6 characters (register parsers are loop-bounded by the syntax itself). Trusted: evaluator and alias oracles, the reference opcode table. One defect "
          "found and repaired (ISZ page rule).",
 )
